@@ -16,6 +16,7 @@ package object
 //@ external reflect.ValueOf
 //@ modifies nothing
 //@ ensures rval(result) == i && uf("rv.valid", bool, result) == (i != nil) && uf("rv.addr", int, result) == 0 && uf("rv.idxaddr", int, result) == 0
+//@ ensures typeof(i) == string ==> uf("rv.str", string, result) == i.(string)
 
 //@ external reflect.(Value).IsZero
 //@ requires uf("rv.valid", bool, v)
@@ -103,6 +104,8 @@ package object
 //@ spec golen(x) = uf("go.len", int, x)
 //@ spec goat(x, i) = uf("go.at", any, x, i)
 //@ spec rvalid(v) = uf("rv.valid", bool, v)
+// kstr(v): the string a Value of kind string holds (string itself or a named string type)
+//@ spec kstr(v) = uf("rv.str", string, v)
 //@ spec elemTo(c, t, o) = ite(uf("conv.to", any, c, o) == nil, uf("go.zero", any, t), uf("conv.to", any, c, o))
 
 //@ external reflect.SliceOf
@@ -208,22 +211,22 @@ package object
 //@ external reflect.(Value).SetMapIndex
 //@ requires rvalid(v) && rvalid(key) && gomap(rval(v)) != nil
 //@ modifies mapof(gomap(rval(v)))
-//@ ensures forallA(k, string, k != rval(key).(string) ==> haskey(gomap(rval(v)), k) == old(haskey(gomap(rval(v)), k)) && gomap(rval(v))[k] == old(gomap(rval(v))[k]))
-//@ ensures haskey(gomap(rval(v)), rval(key).(string)) == rvalid(elem)
-//@ ensures rvalid(elem) ==> gomap(rval(v))[rval(key).(string)] == rval(elem)
+//@ ensures forallA(k, string, k != kstr(key) ==> haskey(gomap(rval(v)), k) == old(haskey(gomap(rval(v)), k)) && gomap(rval(v))[k] == old(gomap(rval(v))[k]))
+//@ ensures haskey(gomap(rval(v)), kstr(key)) == rvalid(elem)
+//@ ensures rvalid(elem) ==> gomap(rval(v))[kstr(key)] == rval(elem)
 
 // MapKeys(): the keys, each once, in unspecified order.
 //@ external reflect.(Value).MapKeys
 //@ requires rvalid(v)
 //@ modifies nothing
-//@ ensures fresh(result) && forall(j, 0, len(result), rvalid(result[j]) && uf("rv.addr", int, result[j]) == 0 && typeof(rval(result[j])) == string && haskey(gomap(rval(v)), rval(result[j]).(string)))
-//@ ensures forall(i, 0, len(result), forall(j, i + 1, len(result), rval(result[i]).(string) != rval(result[j]).(string)))
-//@ ensures forallA(k, string, haskey(gomap(rval(v)), k) ==> exists(j, 0, len(result), rval(result[j]).(string) == k))
+//@ ensures fresh(result) && forall(j, 0, len(result), rvalid(result[j]) && uf("rv.addr", int, result[j]) == 0  && haskey(gomap(rval(v)), kstr(result[j])))
+//@ ensures forall(i, 0, len(result), forall(j, i + 1, len(result), kstr(result[i]) != kstr(result[j])))
+//@ ensures forallA(k, string, haskey(gomap(rval(v)), k) ==> exists(j, 0, len(result), kstr(result[j]) == k))
 
 //@ external reflect.(Value).MapIndex
 //@ requires rvalid(v) && rvalid(key)
 //@ modifies nothing
-//@ ensures haskey(gomap(rval(v)), rval(key).(string)) ==> rvalid(result) && uf("rv.addr", int, result) == 0 && rval(result) == gomap(rval(v))[rval(key).(string)]
+//@ ensures haskey(gomap(rval(v)), kstr(key)) ==> rvalid(result) && uf("rv.addr", int, result) == 0 && rval(result) == gomap(rval(v))[kstr(key)]
 
 //@ func NewMap
 //@ props C08 C16
@@ -234,7 +237,7 @@ package object
 //@ func (*MapConverter).To
 //@ props C08
 //@ safety
-//@ requires c != nil && c.valueConverter != nil && c.valueType != nil && obj != nil && ref(obj) != nil
+//@ requires c != nil && c.valueConverter != nil && c.valueType != nil && c.keyType != nil && obj != nil && ref(obj) != nil
 //@ let items = obj.(*Map).items
 //@ let okAll = forallA(k, string, haskey(items, k) ==> uf("conv.to.ok", bool, c.valueConverter, items[k]))
 //@ modifies nothing
@@ -250,7 +253,7 @@ package object
 //@ requires c != nil && c.valueConverter != nil && obj != nil && gomap(obj) != nil
 //@ let okAll = forallA(k, string, haskey(gomap(obj), k) ==> uf("conv.from.ok", bool, c.valueConverter, gomap(obj)[k]))
 //@ modifies nothing
-//@ invariant 1: o != nil && !allocated(o) && forallA(k, string, haskey(o, k) == exists(j, 0, iter, rval(ranged[j]).(string) == k) && (haskey(o, k) ==> haskey(gomap(obj), k) && uf("conv.from.ok", bool, c.valueConverter, gomap(obj)[k]) && o[k] == uf("conv.from", Object, c.valueConverter, gomap(obj)[k])))
+//@ invariant 1: o != nil && !allocated(o) && forallA(k, string, haskey(o, k) == exists(j, 0, iter, kstr(ranged[j]) == k) && (haskey(o, k) ==> haskey(gomap(obj), k) && uf("conv.from.ok", bool, c.valueConverter, gomap(obj)[k]) && o[k] == uf("conv.from", Object, c.valueConverter, gomap(obj)[k])))
 //@ ensures[C08.map.from.ok] okAll ==> err == nil && typeof(result0) == *Map && ref(result0) != nil && forallA(k, string, haskey(result0.(*Map).items, k) == haskey(gomap(obj), k) && (haskey(gomap(obj), k) ==> result0.(*Map).items[k] == uf("conv.from", Object, c.valueConverter, gomap(obj)[k])))
 //@ ensures[C08.map.from.reject] !okAll ==> err != nil && result0 == nil
 
@@ -310,7 +313,15 @@ package object
 //@ props C08 C09
 //@ requires valueType != nil
 //@ requires[C09.lock] ghost("lock.w", bool, goTypeMutex)
-//@ ensures[C08.disp.map] err == nil ==> result0 != nil && fresh(result0) && result0.valueType == valueType && result0.valueConverter != nil && uf("conv.for", bool, result0.valueConverter, valueType)
+//@ ensures[C08.disp.map] err == nil ==> result0 != nil && fresh(result0) && result0.valueType == valueType && result0.keyType != nil && result0.valueConverter != nil && uf("conv.for", bool, result0.valueConverter, valueType)
+//@ ensures[C08.disp.map.err] err != nil ==> result0 == nil
+
+// (the key type is string or a named type of kind string: KF-60 fixed)
+//@ func newMapConverterWithKey
+//@ props C08 C09
+//@ requires valueType != nil && keyType != nil
+//@ requires[C09.lock] ghost("lock.w", bool, goTypeMutex)
+//@ ensures[C08.disp.map] err == nil ==> result0 != nil && fresh(result0) && result0.valueType == valueType && result0.keyType == keyType && result0.valueConverter != nil && uf("conv.for", bool, result0.valueConverter, valueType)
 //@ ensures[C08.disp.map.err] err != nil ==> result0 == nil
 
 //@ func newStructConverter
@@ -371,6 +382,12 @@ package object
 //@ requires rvalid(v) && t != nil
 //@ modifies nothing
 //@ ensures rvalid(result) && uf("rv.addr", int, result) == 0 && rval(result) == uf("go.convert", any, rval(v), t) && rval(result) != nil && uf("go.typeof", reflect.Type, rval(result)) == t
+//@ ensures uf("rv.str", string, result) == uf("rv.str", string, v)
+
+// Value.String() of a Value of kind string: the string it holds.
+//@ external reflect.(Value).String
+//@ modifies nothing
+//@ ensures result == uf("rv.str", string, v)
 
 //@ func (*NamedConverter).From
 //@ props C08
